@@ -5,6 +5,8 @@ package c05
 
 import (
 	"fmt"
+	"github.com/nspcc-dev/neo-go/pkg/core/transaction"
+	"github.com/nspcc-dev/neo-go/pkg/neotest"
 	"math/big"
 	"sort"
 	"strings"
@@ -307,6 +309,29 @@ func TestCheck(t *testing.T) {
 			}})
 		if hist.P.Rejected != nil {
 			run.Violation("producer-rejected-own-block", fmt.Sprint("h", hi), hist.P.Rejected.Error(), nil)
+		}
+		// completely full blocks: the default per-block transaction limit (512),
+		// one below and one above the notification count limit of one execution
+		// (OnPersist burns a fee per transaction and then mints the primary's share)
+		if hist.P.Rejected == nil && (hi%4 == 1 || ev.Tier() == "thorough" && hi%4 == 3) {
+			p := hist.P
+			for _, n := range []int{511, 512, 513} {
+				var txs []*transaction.Transaction
+				for k := 0; k < n; k++ {
+					u := p.Users[k%len(p.Users)]
+					var sg neotest.Signer = u.S
+					from := u.Hash()
+					if u.Blocked || k%3 == 0 {
+						sg, from = p.Val, p.Val.ScriptHash()
+					}
+					txs = append(txs, p.Call("full-block-gas-transfer", []neotest.Signer{sg}, p.GasH, "transfer", from, p.Users[(k+1)%len(p.Users)].Hash(), int64(1+k%7), nil))
+				}
+				if p.AddBlock(txs...) == nil {
+					run.Violation("producer-rejected-own-block:full-block", fmt.Sprint("h", hi), p.Rejected.Error(), nil)
+					break
+				}
+				run.Obs("full_blocks_checked", 1)
+			}
 		}
 		stop = true
 		if hi < 3 {
